@@ -104,7 +104,7 @@ chk("C02",
 chk("C03",
     "Props/C03.lean: the concatenation wire formats of keys (all nine schemes) and tokens (seven schemes) are modelled (Model/Schemes/Wire.lean): "
     "deserialize(serialize(x)) = x whenever the fields have the configured widths, any other total length is refused, a successful parse returns "
-    "exactly what was sent cut at the configured widths; generated keys of all nine schemes and the tokens of PiBas/PiPack (as used by a successful search), CT14 and ANSS16 provably have those widths "
+    "exactly what was sent cut at the configured widths; generated keys of all nine schemes and the tokens of all seven schemes with a concatenation format - PiBas/PiPack (as used by a successful search), PiPtr/Pi2Lev (prf_f_output_length = param_lambda), SSE1 (every accepted configuration: label of param_l bytes from the bit PRP, mask of param_k + ceil(log2 s / 8) bytes), CT14 and ANSS16 - provably have those widths "
     "(every accepted configuration, via the HMAC P_hash length theorem of C16 and the split-length theorem of C17; ANSS16.key_roundtrip pins the width repaired by 0c28862). Search in the models is a function of the "
     "deserialized objects only, so equal objects give equal results. Tie: the scheme correspondence (all nine schemes) + the direct oracle on "
     "the real code: a FRESH scheme instance from the JSON round trip of the configuration, key / index / token / result deserialized from "
